@@ -168,17 +168,46 @@ class MatchesSetwise:
         self.matchers = matchers
 
     def match(self, observed):
-        remaining_matchers = set(self.matchers)
-        not_matched = []
-        for value in observed:
-            for matcher in remaining_matchers:
-                if matcher.match(value) is None:
-                    remaining_matchers.remove(matcher)
-                    break
-            else:
-                not_matched.append(value)
+        # Pair values with matchers so that as many as possible are paired.
+        # Taking just the first matcher that accepts a value can use up the
+        # only matcher that accepts a later value, so when no free matcher
+        # accepts a value, earlier pairings are rearranged along an augmenting
+        # path (searched breadth first: no recursion, any number of values).
+        matchers = list(dict.fromkeys(self.matchers))
+        values = list(observed)
+        # Every matcher is asked about every value exactly once, in order.
+        accepts = [
+            [matcher.match(value) is None for matcher in matchers] for value in values
+        ]
+        matcher_of = {}  # index of a value -> index of the matcher paired with it
+        value_of = {}  # index of a matcher -> index of the value paired with it
+
+        def pair(start):
+            reached_from = {}  # index of a matcher -> value index it was reached from
+            queue = [start]
+            for value in queue:
+                for matcher in range(len(matchers)):
+                    if matcher in reached_from or not accepts[value][matcher]:
+                        continue
+                    reached_from[matcher] = value
+                    if matcher in value_of:
+                        queue.append(value_of[matcher])
+                        continue
+                    # A free matcher: re-pair along the path back to ``start``.
+                    while matcher is not None:
+                        value = reached_from[matcher]
+                        matcher_of[value], matcher = matcher, matcher_of.get(value)
+                        value_of[matcher_of[value]] = value
+                    return True
+            return False
+
+        not_matched = [
+            value for index, value in enumerate(values) if not pair(index)
+        ]
+        remaining_matchers = [
+            matcher for index, matcher in enumerate(matchers) if index not in value_of
+        ]
         if not_matched or remaining_matchers:
-            remaining_matchers = list(remaining_matchers)
             # There are various cases that all should be reported somewhat
             # differently.
 
